@@ -576,6 +576,16 @@ fn main() {
                 rep.add_part(st.part);
             }
             {
+                // an abortive close (unread bytes) against a peer that lingers after a clean close;
+                // each of the resetting side's packets is lost in turn, the RST among them
+                let mut d = vx_core::DfsConfig::new("abortive-close-with-a-lost-packet", 0);
+                d.wall = wall;
+                let thorough = tier == Tier::Thorough;
+                let st = vx_core::explore_dfs(&d, move |ch| fixedlat::lost_rst_scenario(ch, thorough));
+                rep.violations.extend(st.violations);
+                rep.add_part(st.part);
+            }
+            {
                 // a connect future that is not polled between the SYN-ACK and the acceptor's close
                 let mut d = vx_core::DfsConfig::new("lazily-polled-connect", 0);
                 d.wall = wall;
@@ -805,6 +815,19 @@ fn replay(path: &str) {
         println!("replaying {prop}: {scenario}");
         let mut ch = vx_core::Chooser::from_choices(&choices);
         let e = fixedlat::reply_then_drop_scenario(&mut ch, false);
+        match e.violation {
+            Some(v) => {
+                println!("VIOLATION clause={} : {}", v.clause, v.detail);
+                std::process::exit(1);
+            }
+            None => println!("no violation on this execution"),
+        }
+        return;
+    }
+    if prop == "C13" && scenario.starts_with("c13-lost-rst") {
+        println!("replaying {prop}: {scenario}");
+        let mut ch = vx_core::Chooser::from_choices(&choices);
+        let e = fixedlat::lost_rst_scenario(&mut ch, false);
         match e.violation {
             Some(v) => {
                 println!("VIOLATION clause={} : {}", v.clause, v.detail);
